@@ -108,6 +108,18 @@ func (s *Service) create(ctx context.Context, tx gorp.Tx, _channels *[]Channel, 
 
 	// Append index channels to be created alongside calculated channels
 	channels = append(channels, indexChannels...)
+	if *s.cfg.ValidateNames && len(indexChannels) > 0 {
+		// The derived names have to be as unique as the requested ones.
+		if err := s.validateChannelNames(
+			ctx,
+			tx,
+			KeysFromChannels(channels),
+			Names(channels),
+			opts.RetrieveIfNameExists || opts.OverwriteIfNameExistsAndDifferentProperties,
+		); err != nil {
+			return err
+		}
+	}
 
 	batch := s.createRouter.Batch(channels)
 	oChannels := make([]Channel, 0, len(channels))
